@@ -734,7 +734,7 @@ func (s *SecureChannel) open(ctx context.Context, instance *channelInstance, req
 		RequestedLifetime:     s.cfg.Lifetime,
 	}
 
-	return s.sendRequestWithTimeout(ctx, req, reqID, s.openingInstance, nil, s.cfg.RequestTimeout, func(v ua.Response) error {
+	err = s.sendRequestWithTimeout(ctx, req, reqID, s.openingInstance, nil, s.cfg.RequestTimeout, func(v ua.Response) error {
 		debug.Printf("OpenSecureChannelResponse handler")
 		resp, ok := v.(*ua.OpenSecureChannelResponse)
 		if !ok {
@@ -742,6 +742,13 @@ func (s *SecureChannel) open(ctx context.Context, instance *channelInstance, req
 		}
 		return s.handleOpenSecureChannelResponse(resp, localNonce, s.openingInstance)
 	})
+	if err != nil && requestType == ua.SecurityTokenRequestTypeRenew {
+		// the renewal has failed but its request has used sequence numbers
+		// of the channel. The current token continues after them. The
+		// caller holds the lock of the instance.
+		instance.sequenceNumber = s.openingInstance.sequenceNumber
+	}
+	return err
 }
 
 func (s *SecureChannel) handleOpenSecureChannelResponse(resp *ua.OpenSecureChannelResponse, localNonce []byte, instance *channelInstance) (err error) {
